@@ -87,16 +87,19 @@ theorem dueBeforeEvent_tEvents (fwd : Bool) (xold te : K) (ip : Interp K) (tev :
     unfold dueBeforeEvent
     cases fwd <;> simp only [Bool.false_eq_true, if_false, if_true] <;> split_ifs <;> simp [ih]
 
-theorem terminalSamples_tEvents (fwd : Bool) (xold te : K) (ip : Option (Interp K)) (s : St K) :
-    (terminalSamples fwd xold te ip s).tEvents = s.tEvents := by
+theorem terminalSamples_tEvents (fwd : Bool) (xold x te : K) (ip : Option (Interp K)) (s : St K) :
+    (terminalSamples fwd xold x te ip s).tEvents = s.tEvents := by
   unfold terminalSamples
   split
   · exact dueBeforeEvent_tEvents ..
+  · split
+    · dsimp only; split_ifs <;> rfl
+    · rfl
   · rfl
 
 /-- when a terminal event fires, the event point (time and state) is the final sample -/
-theorem processEvs_fired (fwd : Bool) (xold : K) (ip : Option (Interp K)) :
-    ∀ (evs : List (K × Nat × Array K)) (s s' : St K), processEvs fwd xold ip s evs = (s', true) →
+theorem processEvs_fired (fwd : Bool) (xold x : K) (ip : Option (Interp K)) :
+    ∀ (evs : List (K × Nat × Array K)) (s s' : St K), processEvs fwd xold x ip s evs = (s', true) →
       ∃ te ye i, (te, i, ye) ∈ evs ∧ s'.t.back? = some te := by
   intro evs
   induction evs with
@@ -114,8 +117,8 @@ theorem processEvs_fired (fwd : Bool) (xold : K) (ip : Option (Interp K)) :
 
 /-- events that sort after the terminal one are not recorded: the recorded events of a fired step are a prefix of the
     sorted list -/
-theorem processEvs_prefix (fwd : Bool) (xold : K) (ip : Option (Interp K)) :
-    ∀ (evs : List (K × Nat × Array K)) (s s' : St K) (b : Bool), processEvs fwd xold ip s evs = (s', b) →
+theorem processEvs_prefix (fwd : Bool) (xold x : K) (ip : Option (Interp K)) :
+    ∀ (evs : List (K × Nat × Array K)) (s s' : St K) (b : Bool), processEvs fwd xold x ip s evs = (s', b) →
       ∃ k, k ≤ evs.length ∧ (b = false → k = evs.length)
         ∧ s'.tEvents = ((evs.take k).foldl (fun (st : St K) e => recordEv st e.1 e.2.1 e.2.2) s).tEvents := by
   intro evs
